@@ -36,6 +36,18 @@ Fixpoint first_fit (lo hi : Z) (cs : list (Z * Z)) (k : nat) : option nat :=
 Definition choose_int_dtype (lo hi : rat) : option nat :=
   first_fit (round_half_even lo) (round_half_even hi) candidates 0.
 
+(* What the code really compares.  int_max is a numpy float scalar when the bound came from
+   float data; `int_max <= this_info.max` then converts the Python int iinfo.max to that
+   float type (round to nearest) before comparing.  mant = number of mantissa bits of the
+   type of the upper bound (24: float32, 53: float64 / Python float), 0 = an integer bound
+   (exact comparison).  Every iinfo.max is 2^k - 1: representable iff k <= mant, else it
+   rounds up to 2^k.  (iinfo.min = -2^k is always representable.) *)
+Definition fmax (mant : Z) (mx : Z) : Z :=
+  if (mant =? 0) || (mx <? 2 ^ mant) then mx else mx + 1.
+Definition fcandidates (mant : Z) : list (Z * Z) := map (fun c => (fst c, fmax mant (snd c))) candidates.
+Definition choose_int_dtype_f (mant : Z) (lo hi : rat) : option nat :=
+  first_fit (round_half_even lo) (round_half_even hi) (fcandidates mant) 0.
+
 Definition range_of (k : nat) : Z * Z := nth k candidates (0, -1).
 
 (* value-level view of `rounded_chunk.astype(output_dtype)` *)
@@ -57,6 +69,18 @@ Definition run_choose (x : sx) : sx :=
       match sx_rat a, sx_rat b with
       | Some lo, Some hi =>
           sx_ok (of_nat (match choose_int_dtype lo hi with Some k => k | None => 8%nat end))
+      | _, _ => sx_bad
+      end
+  | _ => sx_bad
+  end.
+
+(* tag 1605: (mant lo hi) -> index chosen by the float-faithful model *)
+Definition run_choose_f (x : sx) : sx :=
+  match x with
+  | L [I m; a; b] =>
+      match sx_rat a, sx_rat b with
+      | Some lo, Some hi =>
+          sx_ok (of_nat (match choose_int_dtype_f m lo hi with Some k => k | None => 8%nat end))
       | _, _ => sx_bad
       end
   | _ => sx_bad
